@@ -12,8 +12,10 @@ pub mod c05;
 pub mod c06;
 pub mod c08;
 pub mod c11;
+pub mod c12;
 pub mod c13;
 pub mod c16;
+pub mod c17;
 
 pub struct Args {
     pub tier: Tier,
@@ -75,8 +77,10 @@ pub fn dispatch(
     route!("C06", c06);
     route!("C08", c08);
     route!("C11", c11);
+    route!("C12", c12);
     route!("C13", c13);
     route!("C16", c16);
+    route!("C17", c17);
 
     if property == "DEBUG-SCAN" {
         // developer aid: rio-mon DEBUG-SCAN '<body text>'
